@@ -25,6 +25,15 @@ func Root() string {
 	return "/verif"
 }
 
+// Out returns the directory under which evidence/ and replay/ are written
+// (VERIF_OUT; defaults to Root()). Only the mutant self-test sets it.
+func Out() string {
+	if r := os.Getenv("VERIF_OUT"); r != "" {
+		return r
+	}
+	return Root()
+}
+
 // Repo returns the path of the google/mtail tree under test.
 func Repo() string {
 	if r := os.Getenv("VERIF_REPO"); r != "" {
@@ -182,7 +191,7 @@ func Start(t testing.TB, id, level string) *Run {
 	return r
 }
 
-func (r *Run) replayDir() string { return filepath.Join(Root(), "replay", r.ID) }
+func (r *Run) replayDir() string { return filepath.Join(Out(), "replay", r.ID) }
 
 func (r *Run) Rule(s string)      { r.mu.Lock(); r.rule = s; r.mu.Unlock() }
 func (r *Run) Assume(s ...string) { r.mu.Lock(); r.assume = append(r.assume, s...); r.mu.Unlock() }
@@ -193,7 +202,16 @@ func (r *Run) Count(k string, n int) {
 	r.mu.Unlock()
 }
 func (r *Run) Get(k string) int64  { r.mu.Lock(); defer r.mu.Unlock(); return r.counters[k] }
-func (r *Run) Set(k string, v any) { r.mu.Lock(); r.extra[k] = v; r.mu.Unlock() }
+func (r *Run) Set(k string, v any) { r.mu.Lock(); r.extra[k] = Safe(v); r.mu.Unlock() }
+
+// Safe returns x if it can be marshalled to JSON, else its %+v rendering
+// (non-finite floats, channels, ...).
+func Safe(x any) any {
+	if b, err := json.Marshal(x); err == nil {
+		return json.RawMessage(b)
+	}
+	return fmt.Sprintf("%+v", x)
+}
 func (r *Run) Exhaustive(b bool)   { r.mu.Lock(); r.exhaustive = &b; r.mu.Unlock() }
 
 // Distinct records one non-trivial case identified by key.
@@ -209,7 +227,7 @@ func (r *Run) Distinct(key string) {
 func (r *Run) Sample(x any) {
 	r.mu.Lock()
 	if len(r.samples) < 6 {
-		r.samples = append(r.samples, x)
+		r.samples = append(r.samples, Safe(x))
 	}
 	r.mu.Unlock()
 }
@@ -226,7 +244,7 @@ func (r *Run) Violation(class string, witness any) {
 	}
 	_ = os.MkdirAll(r.replayDir(), 0o755)
 	p := filepath.Join(r.replayDir(), fmt.Sprintf("%s-%d.json", sanitize(class), r.violClass[class]))
-	b, err := json.MarshalIndent(map[string]any{"property": r.ID, "class": class, "seed": Seed(), "tier": Tier(), "witness": witness}, "", " ")
+	b, err := json.MarshalIndent(map[string]any{"property": r.ID, "class": class, "seed": Seed(), "tier": Tier(), "witness": Safe(witness)}, "", " ")
 	if err != nil {
 		b = []byte(fmt.Sprintf("%q", fmt.Sprint(witness)))
 	}
@@ -333,8 +351,8 @@ func (r *Run) Finish() {
 	if err != nil {
 		r.t.Fatalf("evidence marshal: %v", err)
 	}
-	_ = os.MkdirAll(filepath.Join(Root(), "evidence"), 0o755)
-	if err := os.WriteFile(filepath.Join(Root(), "evidence", r.ID+".json"), b, 0o644); err != nil {
+	_ = os.MkdirAll(filepath.Join(Out(), "evidence"), 0o755)
+	if err := os.WriteFile(filepath.Join(Out(), "evidence", r.ID+".json"), b, 0o644); err != nil {
 		r.t.Fatalf("evidence write: %v", err)
 	}
 	fmt.Printf("SUMMARY property=%s tier=%s seed=%d evaluations=%d distinct_nontrivial=%d violations=%d inconclusive=%d wall_s=%.1f\n",
